@@ -31,7 +31,7 @@ impl RollSum {
         self.s2 = self.s2.wrapping_add(self.s1);
         self.s2 = self
             .s2
-            .wrapping_sub((self.window.len() as u32) * (drop + CHAR_OFFSET));
+            .wrapping_sub((self.window.len() as u32).wrapping_mul(drop + CHAR_OFFSET));
     }
     /// Process a single byte.
     pub fn input(&mut self, in_val: u8) {
